@@ -15,19 +15,10 @@ func (t *Dense) T(axes ...int) (err error) {
 	// is there any old transposes that need to be done first?
 	// this is important, because any old transposes for dim >=3 are merely permutations of the strides
 	if !t.old.IsZero() {
-		if t.IsVector() {
-			// the transform that was calculated was a waste of time - return it to the pool then untranspose
-			t.UT()
-			return
-		}
-
-		// check if the current axes are just a reverse of the previous transpose's
-		isReversed := true
-		for i, s := range t.oshape() {
-			if transform.Shape()[i] != s {
-				isReversed = false
-				break
-			}
+		// check if the current axes undo the previous transpose
+		isReversed := len(axes) == len(t.transposeWith)
+		for i := 0; isReversed && i < len(axes); i++ {
+			isReversed = t.transposeWith[axes[i]] == i
 		}
 
 		// if it is reversed, well, we just restore the backed up one
@@ -38,6 +29,11 @@ func (t *Dense) T(axes ...int) (err error) {
 
 		// cool beans. No funny reversals. We'd have to actually do transpose then
 		t.Transpose()
+
+		// the strides changed along with the data, so the transform has to be recalculated
+		if transform, axes, err = t.AP.T(axes...); err != nil {
+			return handleNoOp(err)
+		}
 	}
 
 	// swap out the old and the new
